@@ -68,6 +68,12 @@ class ZCtx:
         """Obligation: f holds under the path condition.  Records the verdict; a counter-model is kept."""
         r, m = self.check(z3.Not(f))
         if r == z3.unsat:
+            if SECOND["enabled"]:
+                v = second_opinion(self.s, z3.Not(f))
+                if v == "sat":
+                    # the two solvers disagree: never counted as proved, never reported as a violation
+                    self.obligations.append((name, "undecided", detail + " (z3: unsat, cvc5: sat -- solvers disagree)", None))
+                    return None
             self.obligations.append((name, "proved", detail, None))
             return True
         if r == z3.sat:
@@ -92,6 +98,43 @@ class ZCtx:
 
 def zctx():
     return ZCtx.current
+
+
+# ---------------------------------------------------------------------------
+# second opinion: every VC z3 reports unsat is re-run through cvc5 (thorough tier)
+# ---------------------------------------------------------------------------
+SECOND = dict(enabled=False, agree=0, unknown=0, disagree=0, time_s=0.0, error=0)
+CVC5 = "/usr/bin/cvc5"
+
+
+def second_opinion(solver, negated_goal, tlimit_ms=20000):
+    import subprocess
+    import tempfile
+    t0 = time.time()
+    s2 = z3.Solver()
+    s2.add(solver.assertions())
+    s2.add(negated_goal)
+    text = "(set-logic ALL)\n" + s2.to_smt2()
+    try:
+        with tempfile.NamedTemporaryFile("w", suffix=".smt2", delete=True) as fh:
+            fh.write(text)
+            fh.flush()
+            out = subprocess.run([CVC5, "--lang=smt2", "--tlimit=%d" % tlimit_ms, fh.name], capture_output=True, text=True, timeout=tlimit_ms / 1000.0 + 10)
+        lines = out.stdout.strip().splitlines()
+        verdict = lines[0].strip() if lines else "error"
+    except Exception as e:              # cvc5 absent or crashed: recorded, not a verdict
+        verdict = "error"
+    SECOND["time_s"] += time.time() - t0
+    if verdict == "unsat":
+        SECOND["agree"] += 1
+    elif verdict == "sat":
+        SECOND["disagree"] += 1
+    elif verdict in ("unknown", "timeout"):
+        SECOND["unknown"] += 1
+    else:
+        SECOND["error"] += 1
+        verdict = "error"
+    return verdict
 
 
 # ---------------------------------------------------------------------------
